@@ -56,4 +56,9 @@ def FrameComplete (bs : List UInt8) : Prop :=
 def Oversize (max : Limit) (bs : List UInt8) : Prop :=
   ∃ h r m, headerStatus bs = .complete h r ∧ max = some m ∧ m < r
 
+/-- the three packets that consist of a fixed header only, in their one valid encoding
+    (MQTT 3.1.1 and 5, §3.12 PINGREQ `C0 00`, §3.13 PINGRESP `D0 00`, §3.14 DISCONNECT `E0 00`):
+    type 12 / 13 / 14, flags 0, remaining length 0 -/
+def canonicalBodiless (b0 : UInt8) : Bool := b0 == 0xC0 || b0 == 0xD0 || b0 == 0xE0
+
 end Frame
